@@ -144,6 +144,11 @@ def strategy(tier):
         # asyncio: the disconnect handlers do some asynchronous work (they
         # yield to the event loop a few times before they return)
         'disc_yields': st.booleans(),
+        # when the transport is lost, the application answers with
+        # disconnect() ("do not come back"): called by the first disconnect
+        # handler that the loss invokes, or (asyncio) by another task while
+        # that handler is suspended
+        'loss_app_disc': st.sampled_from([None, None, 'handler', 'task']),
         'ops': st.one_of(st.lists(op, min_size=3,
                                   max_size=40 if big else 18),
                          st.lists(op, min_size=3,
@@ -172,10 +177,15 @@ def _run(case, h):
     yield_on = [False]
     dcount = {}
 
+    app_disc = {'on': False, 'done': False}
+
     def rec(kind, ns):
         if kind == 'disconnect':
             def fd(*a):
                 log.append((kind, ns, a))
+                if app_disc['on'] and not app_disc['done'] and not aio:
+                    app_disc['done'] = True
+                    sio.disconnect()
                 n = dcount.get(ns, 0)
                 dcount[ns] = n + 1
                 if dfault and NSS[dfault['ns']] == ns and n == dfault['k']:
@@ -190,6 +200,15 @@ def _run(case, h):
 
             async def afd(*a):
                 r = fd(*a)
+                if app_disc['on'] and not app_disc['done']:
+                    app_disc['done'] = True
+                    if case.get('loss_app_disc') == 'task':
+                        h.loop.spawn(sio.disconnect())
+                        import asyncio
+                        for _ in range(3):
+                            await asyncio.sleep(0)
+                    else:
+                        await sio.disconnect()
                 if case.get('disc_yields') and yield_on[0]:
                     # the handler does some asynchronous work
                     import asyncio
@@ -685,7 +704,17 @@ def _run(case, h):
                             (wire.DISCONNECT, n) for n in was):
                         raise Violation('disconnect-frames', repr(pk))
                 elif k == 'lose':
-                    h.lose()
+                    if case.get('loss_app_disc') and was:
+                        app_disc['on'], app_disc['done'] = True, False
+                        h.lose()
+                        app_disc['on'] = False
+                        h.swallowed[:] = []
+                        if app_disc['done']:
+                            labels['application_disconnects_at_the_loss'] = \
+                                case['loss_app_disc']
+                            labels['nontrivial'] = True
+                    else:
+                        h.lose()
                 else:
                     h.server_close()
                 end_model()
